@@ -165,6 +165,115 @@ def observe_template(spec):
     return {'kind': 'term', 'n': n, 'm': m, 'rules': [], 'ks': ks, 'err': '', 'gtext': g}
 
 
+# ---- repetition operators inside terminals: the language of the pattern lark compiles ------------------------------
+LIT = {'A': '"a"', 'B': '"b"', '_C': '"c"', 'D': '"d"'}
+
+
+def term_text(e):
+    """the expression written as the body of a terminal (string literals for the tokens)"""
+    k = e['k']
+    if k == 'tok':
+        return LIT[e['name']]
+    if k == 'seq':
+        return ' '.join(term_text(x) for x in e['items'])
+    if k == 'alt':
+        return '(' + ' | '.join(term_text(x) for x in e['alts']) + ')'
+    w = term_text(e['x']) if e['x']['k'] in ('tok', 'alt', 'maybe') else '(' + term_text(e['x']) + ')'
+    if k == 'opt':
+        return w + '?'
+    if k == 'maybe':
+        return '[' + term_text(e['x']) + ']'
+    if e['m'] < 0:
+        return w + ('*' if e['n'] == 0 else '+')
+    return w + ('~%d' % e['n'] if e['n'] == e['m'] else '~%d..%d' % (e['n'], e['m']))
+
+
+def min_len(e):
+    k = e['k']
+    if k == 'tok':
+        return 1
+    if k == 'seq':
+        return sum(min_len(x) for x in e['items'])
+    if k == 'alt':
+        return min(min_len(x) for x in e['alts'])
+    if k in ('opt', 'maybe'):
+        return 0
+    return e['n'] * min_len(e['x'])
+
+
+def nullable_unbounded(e):
+    """x* / x+ over a nullable x: a derivation cycle in rule terms - the oracle enumerates derivations and leaves these out"""
+    if e['k'] == 'rep' and e['m'] < 0 and min_len(e['x']) == 0:
+        return True
+    return any(nullable_unbounded(x) for x in e.get('items', []) + e.get('alts', []) + ([e['x']] if 'x' in e else []))
+
+
+def termexpr_specs(tier, rng):
+    T = E.tok
+    ab, cd = E.alt([T('A'), T('B')]), E.alt([T('_C'), T('D')])
+    directed = [E.rep(E.seq([ab, cd]), 2, 3), E.rep(ab, 2, 2), E.rep(E.seq([ab, cd]), 1, -1), E.rep(E.seq([T('A'), E.opt(T('B'))]), 2, 3),
+                E.rep(E.alt([T('A'), E.seq([T('A'), T('B')])]), 1, 2), E.rep(E.rep(T('A'), 1, 2), 2, 2), E.seq([E.rep(ab, 0, 2), T('_C')]),
+                E.rep(E.seq([E.opt(T('A')), cd]), 1, 3), E.opt(E.seq([ab, ab])), E.rep(E.seq([ab, E.rep(cd, 0, -1)]), 2, 2),
+                E.rep(E.seq([E.rep(T('A'), 1, -1), T('B')]), 0, 2), E.seq([ab, E.rep(E.seq([cd, ab]), 1, 2)])]
+    exprs = list(directed)
+    for _ in range(C.scale(700 if tier == 'quick' else 7000)):
+        exprs.append(E.rand_expr(rng, [], 3))
+    import itertools
+    short = [w for k in range(0, 4) for w in itertools.product(['A', 'B', '_C', 'D'], repeat=k)]
+    out = []
+    for e in exprs:
+        if nullable_unbounded(e):
+            continue
+        wrapped = min_len(e) == 0          # a terminal may not match the empty string: anchor it between two literals
+        body = E.seq([T('B'), e, T('_C')]) if wrapped else e
+        G = {'rules': [{'name': 'start', 'expand1': False, 'keepall': False, 'alts': [{'alias': '', 'body': body}]}]}
+        ins = set(rng.sample(short, 40))
+        for _ in range(25):
+            sn = E.sample_sentence(G, rng, maxlen=9)
+            if sn is not None:
+                sn = list(sn)
+                ins.add(tuple(sn))
+                if len(sn) > 1:                       # near misses: drop / duplicate / change one symbol
+                    q = rng.randrange(len(sn))
+                    ins.add(tuple(sn[:q] + sn[q + 1:]))
+                    ins.add(tuple(sn[:q] + [sn[q]] + sn[q:]))
+                    ins.add(tuple(sn[:q] + [rng.choice(['A', 'B', '_C', 'D'])] + sn[q + 1:]))
+        out.append({'G': G, 'gtext': 'start: T\nT: %s\n' % term_text(body), 'inputs': sorted(ins), 'family': 'F_termexpr'})
+    return out
+
+
+def observe_termexpr(spec):
+    """per input: does the pattern lark compiled for T match the whole text (exact language), does the parser accept (sound)"""
+    import logging
+    import re
+    logging.disable(logging.CRITICAL)
+    from lark import Lark
+    from lark.exceptions import UnexpectedInput
+    case = {'gtext': spec['gtext'], 'G': E.grammar_json(spec['G'], False, False), 'ka': False, 'ph': False, 'inputs': [], 'skip': '', 'cyclic': False,
+            'family': spec['family'], 'spec': spec}
+    try:
+        with O.budget(30):
+            p = Lark(spec['gtext'], parser='lalr')
+        pat = re.compile(next(t for t in p.terminals if t.name == 'T').pattern.to_regexp())
+    except Exception as ex:
+        case['skip'] = '%s: %s' % (type(ex).__name__, str(ex)[:60])
+        return case
+    case['regexp'] = pat.pattern
+    for w in spec['inputs']:
+        text = E.to_text(w)
+        obs = [{'cfg': 'terminal-pattern', 'out': 0 if pat.fullmatch(text) else 1, 'tree': ['N', '', 0, []], 'must': True}]
+        try:
+            with O.budget(20):
+                p.parse(text)
+            obs.append({'cfg': 'lalr/contextual', 'out': 0, 'tree': ['N', '', 0, []], 'must': False})
+        except UnexpectedInput:
+            obs.append({'cfg': 'lalr/contextual', 'out': 1, 'tree': ['N', '', 0, []], 'must': False})
+        except (Exception, O.Hang) as ex:
+            obs.append({'cfg': 'lalr/contextual', 'out': 2, 'tree': ['N', '', 0, []], 'must': False, 'exc': type(ex).__name__})
+        case['inputs'].append({'w': list(w), 'obs': obs, 'exp': [], 'text': text})
+    return case
+
+
 def body(tier, seed, replay):
     ev = C.Evidence(PID, tier, seed)
     rep = C.Reporter(PID, ev)
@@ -173,7 +282,11 @@ def body(tier, seed, replay):
     try:
         if replay:
             case = json.load(open(replay))
-            if 'spec' in case:
+            if 'spec' in case and case.get('family') == 'F_termexpr':
+                sp = case['spec']
+                sp['inputs'] = [tuple(w) for w in sp['inputs']]
+                c03.judge(PID, [observe_termexpr(sp)], ev, rep, tmp, 'replay', which='LANG')
+            elif 'spec' in case:
                 sp = case['spec']
                 sp['inputs'] = [tuple(w) for w in sp['inputs']]
                 c03.judge(PID, [c03.observe_case(sp)], ev, rep, tmp, 'replay')
@@ -212,6 +325,17 @@ def body(tier, seed, replay):
         ev.sample({'grammar': c['gtext'], 'text': E.to_text(c['inputs'][1]['w']), 'observed': c['inputs'][1]['obs'][:2]})
         ev.sample({'bounds': [cases[40]['n'], cases[40]['m']], 'helper_rules': cases[40].get('helpers')})
         c03.judge(PID, pcases, ev, rep, tmp, 'parse')
+        tcases = C.pmap(observe_termexpr, termexpr_specs(tier, rng))
+        for c in tcases:
+            ev.count('termexpr_skipped' if c['skip'] else 'termexpr_terminals')
+            for i in c['inputs']:
+                ev.count('termexpr_texts')
+                ev.count('termexpr_texts_matched', i['obs'][0]['out'] == 0)
+        tcases = [c for c in tcases if not c['skip']]
+        ev.sample({'terminal': tcases[0]['gtext'], 'compiled': tcases[0]['regexp']})
+        c03.judge(PID, tcases, ev, rep, tmp, 'termexpr', which='LANG')
+        if ev.cov['counts'].get('termexpr_texts_matched', 0) < 2000:
+            raise C.MachineryFailure('vacuity: %s' % ev.cov['counts'])
         if ev.cov['counts'].get('accepted', 0) < 500:
             raise C.MachineryFailure('vacuity: %s' % ev.cov['counts'])
         ev.assumptions += ['negative bounds are outside the statement; inside terminals only terminals that cannot match the empty string']
